@@ -82,8 +82,17 @@ func (g *generator) declareDefinition(schemas openapi3.Schemas) error {
 }
 
 func (g *generator) walkSchemaRef(schemaRef *openapi3.SchemaRef) (ast.Type, error) {
+	// only possible when the validation of the document is disabled
+	if schemaRef == nil {
+		return ast.Type{}, fmt.Errorf("missing schema (array without 'items'?)")
+	}
+
 	if isRef(schemaRef.Ref) {
 		return g.walkRef(schemaRef)
+	}
+
+	if schemaRef.Value == nil {
+		return ast.Type{}, fmt.Errorf("schema without a value")
 	}
 
 	return g.walkDefinitions(schemaRef.Value)
